@@ -5,6 +5,7 @@ package replay
 // with a global sequence number.  The trace is judged by TLC against spec/StopTrace.tla.
 
 import (
+	"verif/harness/dbwrap"
 	"encoding/json"
 	"fmt"
 	"math/rand"
@@ -237,6 +238,16 @@ func containsStr(s, sub string) bool {
 // must present the ledger of the final best chain (SyncedWhenQuiet, LedgerWhenQuiet); what depends on
 // the interleaving (the pending set and the flags derived from it) is not compared.
 func ReplayFree(u *Universe, h History, dir string, seed int64) (res Result) {
+	return replayFree(u, h, dir, seed, false)
+}
+
+// ReplayTraced is ReplayFree with every chain action, scheduling point and database commit recorded
+// (ledgertrace.go); the lines are judged by TLC against spec/WalletTrace.tla.
+func ReplayTraced(u *Universe, h History, dir string, seed int64) (res Result) {
+	return replayFree(u, h, dir, seed, true)
+}
+
+func replayFree(u *Universe, h History, dir string, seed int64, traced bool) (res Result) {
 	res.OK = true
 	for i := range h {
 		switch h[i].A {
@@ -252,6 +263,27 @@ func ReplayFree(u *Universe, h History, dir string, seed int64) (res Result) {
 		return Result{OK: false, Step: -1, Err: "setup: " + err.Error()}
 	}
 	defer w.Close()
+	var rec *ltRec
+	if traced {
+		if u.Offset != 0 {
+			return Result{OK: false, Err: "harness: traced replay of an offset world"}
+		}
+		rec = &ltRec{w: w, roles: map[int64]string{}, rnd: rand.New(rand.NewSource(seed ^ 0x7ace)), jitter: 25}
+		w.G.mu.Lock()
+		w.G.rec = rec
+		w.G.mu.Unlock()
+		w.DB.SetHooks(rec.hooks())
+		defer func() {
+			w.DB.SetHooks(dbwrap.Hooks{})
+			w.G.mu.Lock()
+			w.G.rec = nil
+			w.G.mu.Unlock()
+			res.Lines = rec.lines()
+			if rec.bad != "" && res.Err == "" {
+				res.OK, res.Err = false, "harness: "+rec.bad
+			}
+		}()
+	}
 	w.G.Open()
 	rnd := rand.New(rand.NewSource(seed))
 	flush := func() {
@@ -269,8 +301,16 @@ func ReplayFree(u *Universe, h History, dir string, seed int64) (res Result) {
 		case "HandleBlock", "HandleTx", "RemoveStepA":
 			continue
 		case "ImportStep", "RemoveStep", "RemoveStepB":
-			// the API calls that follow in the history presuppose that this task has got that far
-			if s.A != "ImportStep" || s.Done {
+			// the API calls that follow in the history presuppose that this task has got that far; without
+			// such a call nothing is waited for (a rescan cannot finish while a step-by-step reorganisation
+			// that the history completes only later is in progress)
+			needed := false
+			for k := i + 1; k < len(h); k++ {
+				if (h[k].A == "Import" || h[k].A == "Remove") && h[k].W == s.W {
+					needed = true
+				}
+			}
+			if needed && (s.A != "ImportStep" || s.Done) {
 				if err := w.waitTask(s.W, s.A != "ImportStep"); err != nil {
 					return Result{OK: false, Step: i, Action: s.A, Sig: "free-not-quiescent", Compared: 1,
 						Diffs: []Diff{{Kind: "free-not-quiescent", What: "free-running worker", Want: "the background task finishes within 30s", Got: err.Error()}}}
@@ -278,7 +318,16 @@ func ReplayFree(u *Universe, h History, dir string, seed int64) (res Result) {
 			}
 			continue
 		}
-		if err := w.doFree(s); err != nil {
+		var err error
+		switch {
+		case rec == nil:
+			err = w.doFree(s)
+		case s.A == "Import" || s.A == "Remove":
+			err = rec.api(s)
+		default:
+			err = rec.chain(s)
+		}
+		if err != nil {
 			return Result{OK: false, Step: i, Action: s.A, Err: err.Error()}
 		}
 		flush()
